@@ -42,10 +42,11 @@ ASSUMPTIONS = [
     "expected value: fields the format expresses come from the rendered datetime; missing year = current year, missing day/month per PREFER_* with clamping to the last valid day; 'current' and the missing year are today's in the process-local zone (what datetime.today() means to a caller; the design-phase relaxation that also accepted the UTC date was dropped: it let a local->UTC switch of the clock read go unnoticed)",
     "under a ticking clock each clock-derived field may come from any instant the call read (the statement says 'the current year', not one atomic now)",
     "a stated day that does not exist in the completed (year, month) is not judged; year-less formats are not rendered on Feb 29",
+    "when several given formats match the string, the reading of the first one in the given order is expected (formats are applied one by one)",
     "localized names are used only if the language itself reads '15 <name> 2015' as that month in a heuristic parse (single-meaning names)",
     "pytz gives the local fields of the simulated instant (independent of the C library the code under test uses)",
 ]
-EXPECTED_PROBES = {"rendered_time_on_a_dst_edge_of_the_process_zone": 1, "clock_year_used": 1, "clock_day_used": 1, "clock_month_used": 1, "localized": 1, "tick_straddle": 1, "utc_local_date_differ": 1}
+EXPECTED_PROBES = {"several_matching_formats": 1, "rendered_time_on_a_dst_edge_of_the_process_zone": 1, "clock_year_used": 1, "clock_day_used": 1, "clock_month_used": 1, "localized": 1, "tick_straddle": 1, "utc_local_date_differ": 1}
 
 
 def fields_of(fmt):
@@ -352,6 +353,15 @@ def gen_case(rng, ctx):
                 "month_full": getattr(EN_MONTHS[d.month - 1], style)(), "month_abbr": getattr(EN_MONTHS[d.month - 1][:3], style)(),
                 "day_full": getattr(EN_DAYS[d.weekday()], style)(), "day_abbr": getattr(EN_DAYS[d.weekday()][:3], style)(),
             }
+    decoys = None
+    if not localized and rng.random() < 0.06:
+        # several formats that all match the string: the first one in the GIVEN order is the reading
+        pair = rng.choice([("%m/%d/%Y", "%d/%m/%Y"), ("%d/%m/%Y", "%m/%d/%Y"), ("%y-%m-%d", "%d-%m-%y"), ("%d-%m-%y", "%y-%m-%d"), ("%d.%m.%Y", "%m.%d.%Y"), ("%H:%M", "%M:%H")])
+        dd = d.replace(day=rng.randrange(1, 13), hour=rng.randrange(0, 24), minute=rng.randrange(0, 24))
+        if "%y" in pair[0]:
+            dd = dd.replace(year=2000 + rng.randrange(1, 13))
+        fmt, decoys, d, kw, lang = pair[0], [pair[1]], dd, {}, rng.choice([None, "en"])
+        has = fields_of(fmt)
     s = render(fmt, d, **kw)
     if localized:
         # a localized name that happens to be an English name makes the raw string match the
@@ -364,7 +374,7 @@ def gen_case(rng, ctx):
             pass
     return {
         "zone": zone, "clock_us": clock_us, "policy": policy, "boundary": bkind, "fmt": fmt, "d": [d.year, d.month, d.day, d.hour, d.minute, d.second, d.microsecond],
-        "string": s, "lang": lang, "localized": bool(localized), "prefs": prefs, "dst_edge": dst_edge,
+        "string": s, "lang": lang, "localized": bool(localized), "prefs": prefs, "dst_edge": dst_edge, "later_formats": decoys,
     }
 
 
@@ -392,7 +402,10 @@ def eval_case(case):
     n0 = len(clk.reads)
     d = dt.datetime(*case["d"])
     settings = dict(case["prefs"]) or None
-    kwargs = {"date_formats": [case["fmt"]]}
+    stats = {}
+    kwargs = {"date_formats": [case["fmt"]] + list(case.get("later_formats") or [])}
+    if case.get("later_formats"):
+        stats["several_matching_formats"] = 1
     if case["lang"]:
         kwargs["languages"] = [case["lang"]]
     if settings:
@@ -406,7 +419,6 @@ def eval_case(case):
     reads = [us for (_, us) in clk.reads[n0:]]
     has = fields_of(case["fmt"])
     exp = expected_set(case["fmt"], d, case["prefs"], reads or [case["clock_us"]], case["zone"])
-    stats = {}
     pd = case["prefs"].get("PREFER_DAY_OF_MONTH", "current")
     pm = case["prefs"].get("PREFER_MONTH_OF_YEAR", "current")
     clock_fields = []
